@@ -273,6 +273,39 @@ def history_level(ctx, base=0, count=None, nops=None):
             ctx.sample({'metamodel': w.mm_lines(), 'ops': lines[:8], 'last_notifications': [list(x) for x in w.notifs]})
 
 
+def equal_values_pass(ctx):
+    """a single-valued attribute re-assigned a value that compares equal to the one it holds without being the same value
+    (1 / True / 1.0 in an object-typed attribute, Decimal('1.0') / Decimal('1.00'), the same instant in another time
+    zone): the feature changes — what it reads, what a save writes — and the change is reported"""
+    import datetime, decimal
+    from pyecore import ecore as E
+    from pyecore.notification import EObserver
+    tz = datetime.timezone(datetime.timedelta(hours=2))
+    series = [(E.EJavaObject, [1, True, 1.0, 1]), (E.EBigDecimal, [decimal.Decimal('1.0'), decimal.Decimal('1.00'), decimal.Decimal('1')]),
+              (E.EDate, [datetime.datetime(2020, 1, 1, 12, 0, tzinfo=datetime.timezone.utc), datetime.datetime(2020, 1, 1, 14, 0, tzinfo=tz)]),
+              (E.EInt, [1, True, 1]), (E.EDouble, [0.0, -0.0, 0.0]), (E.EString, ['a', 'a' * 1, 'b'])]
+    for k, (t, vals) in enumerate(series):
+        A = E.EClass('A')
+        A.eStructuralFeatures.append(E.EAttribute('v', t))
+        a = A()
+        mirror = [None]
+        EObserver(a, notifyChanged=lambda n, m=mirror: m.__setitem__(0, n.new))
+        for step, v in enumerate(vals):
+            try:
+                a.v = v
+            except Exception:
+                continue       # (whether True is an EInt value is C03's question)
+            ctx.evaluations += 1
+            ctx.nontriv(('equal-values', k, step))
+            got = a.v
+            same = lambda x, y: type(x) is type(y) and repr(x) == repr(y)
+            if not same(mirror[0], got):
+                ctx.violate({'clause': 'mirror', 'op': 'set', 'many': False, 'equal_values': True},
+                            f'mirror: {t.name} attribute assigned {vals[:step + 1]!r} in turn: it reads {got!r}, the observer last heard {mirror[0]!r}',
+                            {'equal_values': k, 'type': t.name})
+                return
+
+
 def listener_pass(ctx):
     """several observers on one object (and on its resource), some of which take themselves — or one another — off the
     list while they are being told: every observer that is still subscribed hears of every change exactly once"""
@@ -345,6 +378,7 @@ def run(ctx):
     history_level(ctx)
     crossworld.notification_pass(ctx)
     listener_pass(ctx)
+    equal_values_pass(ctx)
     ctx.assumptions += ['set.discard() is not in the property\'s operation list and bypasses notification (not judged)',
                         'notifications that report no change (SET old==new, ADD of a present element of a set) are not violations',
                         'order between different (notifier, feature) pairs is not compared']
